@@ -135,6 +135,9 @@ impl St {
                             if has("more_than_18_inserts_per_table") && self.inserted.get(table).copied().unwrap_or(0) + rows.len() as u32 > 18 {
                                 return Some("more_than_18_inserts_per_table".into());
                             }
+                            if has("more_than_100_inserts_per_table") && self.inserted.get(table).copied().unwrap_or(0) + rows.len() as u32 > 100 {
+                                return Some("more_than_100_inserts_per_table".into());
+                            }
                             if has("unique_key_reuse_while_session_open") && (!self.sess.is_empty() || in_batch) && rows.iter().any(|r| self.key_used_before(ti, r)) {
                                 return Some("unique_key_reuse_while_session_open".into());
                             }
